@@ -175,7 +175,8 @@ def main(argv=None):
                 if verdict is None:
                     validated += 1
                     if len(samples) < 6:
-                        samples.append({"job": job["name"], "values": s["values"], "notes": s.get("notes"),
+                        samples.append({"job": job["name"], "values": s["values"],
+                                        "replayed_on_real_code": engine._jsonable(csym.notes) or s.get("notes"),
                                         "verdict": "holds (replayed on real code)"})
                 else:
                     inconclusive.append(f"{job['name']}: passing path does not pass on replay: {verdict}")
